@@ -1,10 +1,17 @@
 import Uft.Lemmas.Pattern
+import Uft.Lemmas.Patch
 /-
 C14 — Dynamic patching instruments exactly the selected functions, safely.
 Property theorems only (helpers: Lemmas/Pattern.lean, Lemmas/Patch.lean).
+
+Vocabulary: `c : Code` is a module's memory from map->start; `a` = sym->addr;
+`prologueOff c a` = the patch site (after an optional endbr64); `start + o` its
+address; `tramp` = mdi->trampoline; a symbol's *window* is [addr, addr+9).
 -/
 namespace Uft.Patch
-open Uft.Pattern
+open Uft.Pattern Uft.Gen.PatchTables
+
+/-! ## which functions are selected -/
 
 /-- Last match wins: the verdict of `match_pattern_list` for a symbol is the
     polarity of the last item of the list that applies to it (module is a prefix
@@ -13,5 +20,328 @@ theorem c14_last_match_wins (M : Nat → String → Bool) (ps : List Patt) (lib 
     (so : Option String) (s : String) :
     decidePatch M ps lib so s = ((ps.filter (applies M lib so s)).getLast?).map (·.positive) :=
   decidePatch_eq M ps lib so s
+
+/-- Order matters exactly this way: a later -P or -U item that applies overrides
+    everything before it, one that does not apply changes nothing. -/
+theorem c14_later_item_overrides (M : Nat → String → Bool) (ps : List Patt) (p : Patt)
+    (lib : String) (so : Option String) (s : String) :
+    decidePatch M (ps ++ [p]) lib so s =
+      if applies M lib so s p then some p.positive else decidePatch M ps lib so s := by
+  simp [decidePatch, List.foldl_append]
+
+/-- Items given for another module (`pattern@module` whose module is not a prefix
+    of this library's basename or soname) never influence the verdict. -/
+theorem c14_other_module_ignored (M : Nat → String → Bool) (ps : List Patt) (lib : String)
+    (so : Option String) (s : String) :
+    decidePatch M ps lib so s =
+      decidePatch M (ps.filter fun p => moduleMatches p lib so) lib so s := by
+  rw [decidePatch_eq, decidePatch_eq, List.filter_filter]
+  congr 2
+  apply List.filter_congr
+  intro p _
+  simp only [applies]
+  cases moduleMatches p lib so <;> simp
+
+/-- `-U f` reaches the list as `!f`: an item is negative iff it starts with '!'. -/
+theorem c14_parse_polarity (defMod : String) (i : Nat) (item : String) :
+    (parseItem defMod i item).positive = !(item.toList.head? == some '!') := by
+  unfold parseItem
+  cases h : item.toList with
+  | nil => simp
+  | cons c r =>
+    by_cases hc : c = '!'
+    · subst hc; simp
+    · simp only [List.head?_cons]
+      split
+      · rename_i heq; simp only [List.cons.injEq] at heq; exact absurd heq.1 hc
+      · simp [hc]
+
+/-! ## what a patch does to the bytes -/
+
+/-- Functions that cannot be patched are left byte-for-byte untouched: if the
+    bytes at the site are none of the four NOP patterns, the image is returned
+    unchanged (for every module type, size and trampoline). -/
+theorem c14_unpatchable_untouched (ty : DynType) (ms ss : Nat) (c : Code) (start a tramp : Nat)
+    (h : isNopPrologue c (prologueOff c a) = false) :
+    (patchFunc ty ms ss c start a tramp).1 = c ∧
+    (patchFunc ty ms ss c start a tramp).2 ≠ .success := by
+  rcases patchFunc_cases ty ms ss c start a tramp with h1 | ⟨_, h2, _, _⟩
+  · exact h1
+  · rcases patchFentry_shape c start a tramp with ⟨h3, _⟩ | ⟨_, h4, _⟩
+    · rw [h3] at h2; cases h2
+    · rw [h] at h4; cases h4
+
+example : ∃ c a, isNopPrologue c (prologueOff c a) = false := ⟨[0x55, 0x48, 0x89, 0xe5, 0xc3], 0, by decide⟩
+
+/-- The size filter: a function smaller than max(-Z, CALL_INSN_SIZE+1) is never
+    touched. -/
+theorem c14_size_filter (ty : DynType) (ms ss : Nat) (c : Code) (start a tramp : Nat)
+    (h : ss < max ms 6) :
+    patchFunc ty ms ss c start a tramp = (c, .skipped) := by
+  unfold patchFunc
+  rw [effMinSize_eq]
+  simp [h]
+
+example : (5 : Nat) < max 0 6 := by decide
+
+/-- A patch is local: the image keeps its length; every byte outside the five
+    bytes at the site is unchanged; unless the result is SUCCESS nothing at all
+    changes; on SUCCESS the five bytes are `e8 rel32` with
+    rel32 = (uint32)(trampoline - (site + 5)). -/
+theorem c14_patch_is_local (ty : DynType) (ms ss : Nat) (c : Code) (start a tramp : Nat) :
+    (patchFunc ty ms ss c start a tramp).1.length = c.length ∧
+    (∀ i, i < prologueOff c a ∨ prologueOff c a + 5 ≤ i →
+      (patchFunc ty ms ss c start a tramp).1[i]? = c[i]?) ∧
+    ((patchFunc ty ms ss c start a tramp).2 ≠ .success → (patchFunc ty ms ss c start a tramp).1 = c) ∧
+    ((patchFunc ty ms ss c start a tramp).2 = .success → prologueOff c a + 5 ≤ c.length →
+      ∀ k, k < 5 → (patchFunc ty ms ss c start a tramp).1[prologueOff c a + k]? =
+        (0xe8 :: le32 (targetAddr tramp (start + prologueOff c a)))[k]?) := by
+  refine ⟨length_patchFunc _ _ _ _ _ _ _, ?_, ?_, ?_⟩
+  · intro i hi
+    rcases patchFunc_cases ty ms ss c start a tramp with ⟨h1, _⟩ | ⟨h1, _, _, _⟩
+    · rw [h1]
+    · rw [h1]
+      rcases patchFentry_shape c start a tramp with ⟨h2, _⟩ | ⟨h2, _, _⟩
+      · rw [h2]
+      · rw [h2]; exact getElem?_writeAt_outside _ _ _ _ (by rw [length_callInsn]; exact hi)
+  · intro hns
+    rcases patchFunc_cases ty ms ss c start a tramp with ⟨h1, _⟩ | ⟨h1, h2, _, _⟩
+    · exact h1
+    · rw [h1] at hns; exact absurd h2 hns
+  · intro hs hin k hk
+    rcases patchFunc_cases ty ms ss c start a tramp with ⟨_, h2⟩ | ⟨h1, _, _, _⟩
+    · exact absurd hs h2
+    · rw [h1]
+      rcases patchFentry_shape c start a tramp with ⟨h2, _⟩ | ⟨h2, _, _⟩
+      · rw [h1, h2] at hs; cases hs
+      · rw [h2]
+        exact getElem?_writeAt_inside _ _ _ k (by rw [length_callInsn]; exact hk)
+          (by rw [length_callInsn]; exact hin)
+
+example : (patchFunc .patchable 0 16 [0x90, 0x90, 0x90, 0x90, 0x90, 0xc3] 0x1000 0 0x1ff0).2 = .success := by
+  decide
+
+/-- The displacement written is exact: its four bytes decode to
+    `targetAddr`, and whenever the trampoline is within ±2 GiB of the end of the
+    call instruction (it is: it sits at the end of the module's own text
+    segment) the call lands exactly on the trampoline. -/
+theorem c14_call_reaches_trampoline (tramp site : Nat) (ht : tramp < 2 ^ 64) (hs : site + 5 < 2 ^ 64)
+    (hlo : (site : Int) + 5 - 2 ^ 31 ≤ tramp) (hhi : (tramp : Int) < site + 5 + 2 ^ 31) :
+    dec32 (le32 (targetAddr tramp site)) = targetAddr tramp site ∧
+    callDest site (targetAddr tramp site) = tramp :=
+  ⟨dec32_le32 _ (targetAddr_lt _ _), callDest_targetAddr tramp site ht hs hlo hhi⟩
+
+example : callDest 0x1000 (targetAddr 0x1ff0 0x1000) = 0x1ff0 := by decide
+example : callDest 0x2000 (targetAddr 0x1ff0 0x2000) = 0x1ff0 := by decide
+
+/-- What gcc emits for `-fpatchable-function-entry=5` (five 0x90) and for
+    `-pg -mfentry -mnop-mcount` (0f 1f 44 00 00), each optionally after endbr64
+    (`-fcf-protection`), is recognised: such a function of sufficient size is
+    patched.  (Stated on literal bytes, so a changed table breaks it.) -/
+theorem c14_compiler_prologues_recognized (ms ss : Nat) (rest : List UInt8) (start tramp : Nat)
+    (hsz : max ms 6 ≤ ss) (ty : DynType) (hty : ty = .fentryNop ∨ ty = .patchable) :
+    (targetAddr tramp (start + 0) ≠ 0 →
+      (patchFunc ty ms ss ([0x90, 0x90, 0x90, 0x90, 0x90] ++ rest) start 0 tramp).2 = .success ∧
+      (patchFunc ty ms ss ([0x0f, 0x1f, 0x44, 0x00, 0x00] ++ rest) start 0 tramp).2 = .success) ∧
+    (targetAddr tramp (start + 4) ≠ 0 →
+      (patchFunc ty ms ss ([0xf3, 0x0f, 0x1e, 0xfa, 0x90, 0x90, 0x90, 0x90, 0x90] ++ rest) start 0 tramp).2 = .success ∧
+      (patchFunc ty ms ss ([0xf3, 0x0f, 0x1e, 0xfa, 0x0f, 0x1f, 0x44, 0x00, 0x00] ++ rest) start 0 tramp).2 = .success) := by
+  have tab : ∀ (c : Code) (o : Nat), prologueOff c 0 = o →
+      (matchAt c o patchable_gcc_nop = true ∨ matchAt c o fentry_nop_patt2 = true) →
+      targetAddr tramp (start + o) ≠ 0 → (patchFunc ty ms ss c start 0 tramp).2 = .success := by
+    intro c o ho hm ht
+    rw [patchFunc_success_iff, ho]
+    refine ⟨hsz, hty, ?_, ht⟩
+    unfold isNopPrologue
+    rcases hm with h | h <;> simp [h]
+  constructor
+  · intro ht
+    constructor
+    · exact tab _ 0 (by simp [prologueOff, matchAt, rd, endbr64]) (by simp [matchAt, rd, patchable_gcc_nop]) ht
+    · exact tab _ 0 (by simp [prologueOff, matchAt, rd, endbr64]) (by simp [matchAt, rd, fentry_nop_patt2]) ht
+  · intro ht
+    constructor
+    · exact tab _ 4 (by simp [prologueOff, matchAt, rd, endbr64]) (by simp [matchAt, rd, patchable_gcc_nop]) ht
+    · exact tab _ 4 (by simp [prologueOff, matchAt, rd, endbr64]) (by simp [matchAt, rd, fentry_nop_patt2]) ht
+
+/-! ## unpatch -/
+
+/-- Patch then unpatch gives the original bytes back, byte for byte, when the
+    function started with the 5-byte NOP that unpatch writes (the
+    `-mnop-mcount` NOP) and has no endbr64 in front. -/
+theorem c14_unpatch_restores (ty : DynType) (ms ss : Nat) (c : Code) (start a tramp : Nat)
+    (hne : matchAt c a endbr64 = false) (hnop : matchAt c a unpatch_nop5 = true)
+    (hs : (patchFunc ty ms ss c start a tramp).2 = .success) (hin : a + 5 ≤ c.length) :
+    unpatchAt (patchFunc ty ms ss c start a tramp).1 a = (c, .success) := by
+  rcases patchFunc_cases ty ms ss c start a tramp with ⟨_, h2⟩ | ⟨h1, _, _, _⟩
+  · exact absurd hs h2
+  · rw [h1]
+    rcases patchFentry_shape c start a tramp with ⟨h2, _⟩ | ⟨h2, _, _⟩
+    · rw [h1, h2] at hs; cases hs
+    · rw [h2]
+      have ho : prologueOff c a = a := by simp [prologueOff, hne]
+      simp only [ho]
+      have hw : rd (writeAt c a (callInsn (targetAddr tramp (start + a)))) (a + 0) = 0xe8 := by
+        rw [rd_writeAt_inside _ _ _ 0 (by simp [length_callInsn]) (by rw [length_callInsn]; exact hin)]
+        rfl
+      rw [Nat.add_zero] at hw
+      unfold unpatchAt
+      simp only [hw, beq_self_eq_true, if_true]
+      rw [writeAt_writeAt _ _ _ _ (by rw [length_callInsn]; exact nop_lengths.2.2.2.2.2.1.symm),
+        writeAt_of_matchAt c a unpatch_nop5 hnop]
+
+example : matchAt [0x0f, 0x1f, 0x44, 0x00, 0x00, 0xc3] 0 endbr64 = false ∧
+    matchAt [0x0f, 0x1f, 0x44, 0x00, 0x00, 0xc3] 0 unpatch_nop5 = true ∧
+    (patchFunc .patchable 0 6 [0x0f, 0x1f, 0x44, 0x00, 0x00, 0xc3] 0x1000 0 0x1ff0).2 = .success := by decide
+
+/-- In general (no endbr64) patch-then-unpatch leaves a function that differs from
+    the original at most in its five NOP bytes, which again form a NOP that the
+    patcher accepts (the function stays patchable and behaves the same). -/
+theorem c14_unpatch_gives_nop (ty : DynType) (ms ss : Nat) (c : Code) (start a tramp : Nat)
+    (hne : matchAt c a endbr64 = false)
+    (hs : (patchFunc ty ms ss c start a tramp).2 = .success) (hin : a + 5 ≤ c.length) :
+    unpatchAt (patchFunc ty ms ss c start a tramp).1 a = (writeAt c a unpatch_nop5, .success) ∧
+    (∀ i, i < a ∨ a + 5 ≤ i → (writeAt c a unpatch_nop5)[i]? = c[i]?) ∧
+    isNopPrologue (writeAt c a unpatch_nop5) a = true := by
+  have hl5 := nop_lengths.2.2.2.2.2.1
+  refine ⟨?_, fun i hi => getElem?_writeAt_outside _ _ _ _ (by rw [hl5]; exact hi), ?_⟩
+  · rcases patchFunc_cases ty ms ss c start a tramp with ⟨_, h2⟩ | ⟨h1, _, _, _⟩
+    · exact absurd hs h2
+    · rw [h1]
+      rcases patchFentry_shape c start a tramp with ⟨h2, _⟩ | ⟨h2, _, _⟩
+      · rw [h1, h2] at hs; cases hs
+      · rw [h2]
+        have ho : prologueOff c a = a := by simp [prologueOff, hne]
+        simp only [ho]
+        have hw : rd (writeAt c a (callInsn (targetAddr tramp (start + a)))) (a + 0) = 0xe8 := by
+          rw [rd_writeAt_inside _ _ _ 0 (by simp [length_callInsn]) (by rw [length_callInsn]; exact hin)]
+          rfl
+        rw [Nat.add_zero] at hw
+        unfold unpatchAt
+        simp only [hw, beq_self_eq_true, if_true]
+        rw [writeAt_writeAt _ _ _ _ (by rw [length_callInsn]; exact hl5.symm)]
+  · have hm : matchAt (writeAt c a unpatch_nop5) a fentry_nop_patt2 = true := by
+      rw [matchAt_iff]
+      intro k hk
+      have hk5 : k < unpatch_nop5.length := by rw [hl5]; exact (by simpa [nop_lengths.2.2.2.1] using hk)
+      rw [rd_writeAt_inside _ _ _ k hk5 (by rw [hl5]; exact hin)]
+      rfl
+    simp [isNopPrologue, hm]
+
+/-- Behaviour of the code as it is (outside the property's quantifier, recorded
+    for the reader): `unpatch_func` looks at the first byte of the *symbol*, so a
+    patched function that starts with endbr64 is not unpatched. -/
+theorem c14_unpatch_endbr_skipped (c : Code) (a : Nat) (h : matchAt c a endbr64 = true) :
+    unpatchAt c a = (c, .skipped) := by
+  have h0 := matchAt_endbr_first c a h
+  have h1 : (rd c a == 0xe8) = false := by rw [h0]; decide
+  have h2 : (rd c a == 0xff) = false := by rw [h0]; decide
+  simp [unpatchAt, h1, h2]
+
+example : matchAt [0xf3, 0x0f, 0x1e, 0xfa, 0xe8, 0, 0, 0, 0] 0 endbr64 = true := by decide
+
+/-! ## the per-module loop: exactly the selected functions -/
+
+/-- The traced set is exact.  Run the patch loop of a `-fpatchable-function-entry`
+    or `-mnop-mcount` module over symbols whose 9-byte windows are disjoint and
+    inside the image, none of them instrumented initially.  Then a function ends
+    up instrumented (call opcode at its site) iff its last matching option is a
+    -P, it is at least max(-Z, 6) bytes long, its prologue is one of the NOP
+    patterns and the displacement is non-zero.  In particular a function whose
+    last match is a -U, or that matches nothing, is not instrumented. -/
+theorem c14_traced_set_exact (cfg : Cfg) (hty : cfg.ty = .fentryNop ∨ cfg.ty = .patchable)
+    (verdict : String → Option Bool) (syms : List Sym) (st : LoopSt)
+    (hd : Disjoint syms) (hin : ∀ s ∈ syms, s.addr + 9 ≤ st.code.length)
+    (h0 : ∀ s ∈ syms, instrumented st.code s = false) :
+    ∀ s ∈ syms,
+      (instrumented (runSyms cfg verdict st syms).code s = true ↔
+        (verdict s.name = some true ∧ max cfg.minSize 6 ≤ s.size ∧
+          isNopPrologue st.code (prologueOff st.code s.addr) = true ∧
+          targetAddr cfg.tramp (cfg.start + prologueOff st.code s.addr) ≠ 0)) := by
+  intro s hs
+  have hpg : cfg.ty ≠ .pg := by rcases hty with e | e <;> rw [e] <;> decide
+  rw [instrumented_congr _ _ s (runSyms_window cfg hpg verdict syms hd st s hs),
+    instrumented_stepCode cfg hpg _ _ s (hin s hs) (h0 s hs), patchFunc_success_iff]
+  constructor
+  · rintro ⟨h1, h2, _, h4, h5⟩; exact ⟨h1, h2, h4, h5⟩
+  · rintro ⟨h1, h2, h4, h5⟩; exact ⟨h1, h2, hty, h4, h5⟩
+
+example : Disjoint [⟨"a", 0, 16, true⟩, ⟨"b", 16, 16, true⟩] := by
+  simp [Disjoint]
+
+/-- Nothing else is modified: a byte of the module that differs after the loop
+    lies in the window of a symbol that some -P or -U item selected; and the
+    image never changes length. -/
+theorem c14_only_selected_modified (cfg : Cfg) (hty : cfg.ty ≠ .pg)
+    (verdict : String → Option Bool) (syms : List Sym) (st : LoopSt) (hd : Disjoint syms) (i : Nat)
+    (h : (runSyms cfg verdict st syms).code[i]? ≠ st.code[i]?) :
+    ∃ s ∈ syms, s.addr ≤ i ∧ i < s.addr + 9 ∧ verdict s.name ≠ none := by
+  apply Classical.byContradiction
+  intro hno
+  apply h
+  by_cases hw : ∃ s ∈ syms, s.addr ≤ i ∧ i < s.addr + 9
+  · obtain ⟨s, hs, h1, h2⟩ := hw
+    rw [runSyms_window cfg hty verdict syms hd st s hs i h1 h2]
+    have hv : verdict s.name = none := by
+      cases hvv : verdict s.name with
+      | none => rfl
+      | some b => exact absurd ⟨s, hs, h1, h2, by simp [hvv]⟩ hno
+    simp [stepCode, hv]
+  · exact runSyms_outside cfg hty verdict syms st i (fun s hs => by
+      by_cases h1 : s.addr ≤ i
+      · by_cases h2 : i < s.addr + 9
+        · exact absurd ⟨s, hs, h1, h2⟩ hw
+        · right; omega
+      · left; omega)
+
+theorem c14_loop_keeps_length (cfg : Cfg) (verdict : String → Option Bool) (syms : List Sym)
+    (st : LoopSt) : (runSyms cfg verdict st syms).code.length = st.code.length :=
+  length_runSyms cfg verdict syms st
+
+/-! ## W^X -/
+
+/-- After mcount_dynamic_update (setup + patch + freeze) no page that the update
+    touched is writable: a page that is writable afterwards is outside every
+    module's text range, has exactly its initial protection, and was therefore
+    writable before.  Every page of every module's text range (including a page
+    added for the trampoline) is r-x.  Holds for every module list, pattern
+    verdict, and every pattern of failing RWX requests. -/
+theorem c14_wx_after_freeze (fa ms : Nat) (verdict : Module → String → Option Bool) (w : World) :
+    (∀ m ∈ (dynamicUpdate fa ms verdict w).mods, ∀ p, inText m p →
+      (dynamicUpdate fa ms verdict w).pages p = Perm.rx) ∧
+    (∀ p, ((dynamicUpdate fa ms verdict w).pages p).w = true →
+      (dynamicUpdate fa ms verdict w).pages p = w.pages p ∧
+      ¬ ∃ m ∈ (dynamicUpdate fa ms verdict w).mods, inText m p) := by
+  simp only [dynamicUpdate, doDynamicUpdate]
+  constructor
+  · intro m hm p hp
+    exact freezeAll_in _ _ p ⟨m, hm, hp⟩
+  · intro p hp
+    by_cases hin : ∃ m ∈ (updateAll fa ms verdict w.mods w.pages w.stats).1, inText m p
+    · rw [freezeAll_in _ _ p hin] at hp
+      cases hp
+    · refine ⟨?_, hin⟩
+      rw [freezeAll_out _ _ p hin]
+      apply Classical.byContradiction
+      intro hne
+      exact hin (updateAll_changes_in_text fa ms verdict w.mods w.pages w.stats p hne)
+
+/-- Between setup and freeze the text range is RWX, as the code does (stated so
+    the model cannot silently skip the writable phase). -/
+theorem c14_setup_makes_text_rwx (fa : Nat) (m : Module) (pg : Pages) (hok : m.setupFails = false)
+    (p : Nat) (hp : inText (setupTrampoline fa m pg).1 p) :
+    (setupTrampoline fa m pg).2.1 p = Perm.rwx ∧ (setupTrampoline fa m pg).2.2 = true := by
+  obtain ⟨ha, hs⟩ := setup_fields fa m pg
+  unfold inText at hp
+  rw [ha, hs] at hp
+  unfold setupTrampoline
+  simp only [hok, Bool.false_eq_true, if_false, and_true]
+  exact setRange_in _ _ _ _ _ hp
+
+example : ∃ m : Module, m.setupFails = false ∧
+    inText (setupTrampoline 0 m (fun _ => Perm.rx)).1 1 :=
+  ⟨{ libname := "m", ty := .patchable, start := 4096, textAddr := 4096, textSize := 100,
+     code := [], syms := [], locs := [] }, rfl, by unfold inText; decide⟩
+
 
 end Uft.Patch
